@@ -6,6 +6,7 @@ import (
 	"runtime"
 	"sort"
 	"strconv"
+	"strings"
 	"sync"
 	"time"
 
@@ -524,6 +525,21 @@ func c02(c *Ctx) {
 				var ok4 bool
 				guard(func() { ok4, _, _ = service.VerifyAPREQ(&req, st2) })
 				c.Check(!ok4, "a replay is recognised through every settings object of the service process", "e2e:replay-other-settings", fmt.Sprint("settings ", si), map[string]interface{}{"etype": et, "settings": si})
+			}
+			// ... and with unprotected letters of the ticket's service name re-cased: whichever way the key look-up and the
+			// replay record treat case, the same authenticator is not accepted again by this service
+			for vi := 0; vi < 2; vi++ {
+				req := m.req
+				ns := append([]string{}, req.Ticket.SName.NameString...)
+				if vi == 0 {
+					ns[len(ns)-1] = strings.ToUpper(ns[len(ns)-1])
+				} else {
+					ns[0] = strings.ToLower(ns[0])
+				}
+				req.Ticket.SName = types.PrincipalName{NameType: req.Ticket.SName.NameType, NameString: ns}
+				var ok5 bool
+				guard(func() { ok5, _, _ = service.VerifyAPREQ(&req, st) })
+				c.Check(!ok5, "a replay is recognised whatever the letter case of the cleartext service name", "e2e:replay-recased-sname", fmt.Sprint(ns), map[string]interface{}{"etype": et})
 			}
 			c.Check(ok1 && !ok2, "a fresh authenticator is accepted once and refused as a replay at once", "e2e:first-presentations", fmt.Sprint(ok1, e1, ok2), map[string]interface{}{"etype": et})
 			accepted := 0
